@@ -839,6 +839,8 @@ def run(ctx) -> None:
     ctx.rule(rule_revoke)
     ctx.rule(rule_windows)
     ctx.rule(rule_srk)
+    from ..engines import attrproto
+    ctx.rule(lambda c: attrproto.check(c, "C06.ca-attribute", "ca", 4, 2))
     ctx.rule(rule_offsets)
     ctx.chk.assumptions = ["hash / AES-CBC / signature primitives are correct (C08, C09)", "struct semantics",
                            "not decided: that every single-bit corruption is detected (follows from the signed range + hash only under the primitives' security), "
